@@ -451,6 +451,49 @@ def run_c15(res, tier, seed):
     res.cov["samples"] += [{"sequence": [describe(op) for op in jobs[i][2]][:6], "model": mo[i][:200]} for i in (0, 1)]
 
 
+def run_request_burst(res, tier, seed):
+    """more slow requests in flight than the server allows at a time (lib.rs: ConcurrencyLayer::new(available_parallelism)):
+    all of them must still be answered, and a message sent afterwards must be handled"""
+    lsp.build_glas()
+    root = os.path.join(common.ROOT, "work", f"c15-burst-{os.getpid()}")
+    shutil.rmtree(root, ignore_errors=True)
+    os.makedirs(root + "/src")
+    open(root + "/gleam.toml", "w").write('name = "p"\n')
+    text = "".join("pub fn f%d(x) {\n  let y = x + %d\n  case y { 1 -> g%d(y) _ -> y * 2 }\n}\nfn g%d(a) { a + 1 }\n" % (i, i, i, i) for i in range(400))
+    open(root + "/src/a.gleam", "w").write(text)
+    uri = "file://" + root + "/src/a.gleam"
+    try:
+        limit = len(os.sched_getaffinity(0))
+    except Exception:
+        limit = os.cpu_count() or 4
+    k = limit + 8
+    c = lsp.Lsp(root)
+    try:
+        if c.initialize() is None:
+            return
+        c.notify("textDocument/didOpen", {"textDocument": {"uri": uri, "languageId": "gleam", "version": 1, "text": text}})
+        time.sleep(1.0)
+        c.notify("textDocument/didChange", {"textDocument": {"uri": uri, "version": 2},
+                                              "contentChanges": [{"range": {"start": {"line": 0, "character": 0}, "end": {"line": 0, "character": 0}}, "text": "// edited\n"}]})
+        ids = [c.send_request("textDocument/semanticTokens/full", {"textDocument": {"uri": uri}}) for _ in range(k)]
+        t_end = time.time() + 12
+        answered = 0
+        for i in ids:
+            r = c.wait(i, timeout=max(0.1, t_end - time.time()))
+            if r is not None:
+                answered += 1
+        res.cov["evaluations"] += k
+        after = c.request("glas/syntaxTree", {"textDocument": {"uri": uri}}, timeout=5) if c.alive() else None
+        if answered < k or after is None:
+            res.add_violation("C15/request-limit-deadlock",
+                              f"{k} slow requests sent at once (the server allows {limit} at a time): {answered} answered after 12 s; a request sent afterwards is "
+                              f"{'answered' if after is not None else 'not answered'}; the process is {'alive' if c.alive() else 'gone'}",
+                              {"requests_in_flight": k, "limit": limit, "answered": answered, "document": "400 small functions", "method": "textDocument/semanticTokens/full"})
+    finally:
+        c.close()
+        shutil.rmtree(root, ignore_errors=True)
+
+
 def run_c13_blackbox(res, tier, seed):
     """C13 against the real binary: didOpen, then notifications with 1-4 VALID changes each (ranges refer to the
     document as left by the previous change of the same notification), full-text replacements mixed in"""
@@ -540,6 +583,7 @@ def run(prop, res, tier, seed):
     except Broken as b:
         res.add_broken(b.what, b.detail)
     run_c15(res, tier, seed)
+    run_request_burst(res, tier, seed)
     if res.disagreements:
         rq, a, b = res.disagreements[0]
         res.add_broken("correspondence model-vs-implementation (M-server vs the real binary)",
